@@ -324,8 +324,9 @@ example : ∃ sys0 s : Sys, ∃ rs, ∃ ta tb : Tcb,
     *calm* state of the closed system (`Props/C01Converge.lean`: both ESTABLISHED, SYN acknowledged, MTU >
     SPACE_FOR_HEADERS, reorder heaps / receive buffers / one-shot queues empty, retransmission timers ≤ RTO) in which the
     closer A has **ANYTHING on its retransmission queue** — data segments lost in any number, or received but their ACKs
-    lost, or both — and unsent text (`0 < |unsent| ≤ 65535·n`), and B is idle (`SND.UNA = SND.NXT`, nothing unsent).  A's
-    application calls `close()` (FIN-WAIT-1, no FIN yet), then the network is fair: `closeLossFrontN n` = `close A`,
+    lost, or both — and ANY amount of unsent text (`|unsent| ≤ 65535·n`; none at all is allowed: then `close()` itself
+    numbers the FIN, behind the unacknowledged data), and B is idle (`SND.UNA = SND.NXT`, nothing unsent).  A's
+    application calls `close()` (FIN-WAIT-1), then the network is fair: `closeLossFrontN n` = `close A`,
     `fairRound (2n + 2)` (= both retransmission timers expire, `2n + 2` exchange phases).  The closer **retransmits in
     FIN-WAIT-1** (`advance_time` flags the whole queue whatever the state, `Tcb.advanceTime_fw`; the first `segments()`
     re-sends the queue whole, then cuts what the window still admits), B takes what it has not received yet in order and
@@ -339,7 +340,7 @@ theorem c03_close_after_loss_partial (ia ib : Seq) (ma mb : U16) (simultaneous :
     (h0 : Sys.run {} [.open .A ia ma, if simultaneous then .open .B ib mb else .listen .B ib mb] = .ok (sys0, rs))
     (hrun : PlainRun sys0 s) (h31 : RoomH s) (ta tb : Tcb) (hc : Calm s ta tb)
     (hub : tb.snd.una = tb.snd.nxt) (tbt : tb.outgoing.text = [])
-    (hne : ta.outgoing.text ≠ []) (n : Nat) (hlen : ta.outgoing.text.length ≤ 65535 * n) :
+    (n : Nat) (hlen : ta.outgoing.text.length ≤ 65535 * n) :
     ∃ s1 ta1 tb1 s2, closeLossFrontN n s = .ok s1 ∧ FinRun s s1 ∧ s1.a.tcb = some ta1 ∧ s1.b.tcb = some tb1 ∧
       ta1.state = .FinWait2 ∧ tb1.state = .CloseWait ∧ RestX .A ta1 tb1 ∧ RestX .B tb1 ta1 ∧
       s1.b.delivered = s1.a.submitted ∧ s1.a.submitted = s.a.submitted ∧
@@ -347,8 +348,19 @@ theorem c03_close_after_loss_partial (ia ib : Seq) (ma mb : U16) (simultaneous :
       s2.b.delivered = s2.a.submitted ∧ s2.a.delivered = s2.b.submitted ∧
       s2.a.submitted = s.a.submitted ∧ s2.b.submitted = s.b.submitted := by
   have hg := good_of_reach ia ib ma mb simultaneous sys0 s rs hma hmb h0 hrun h31
-  obtain ⟨s1, ta1, tb1, s2, e1, r1, h1a, h1b, sa, sb, ca, cb, u1, u2, u3, e12, e2, r2, na, nb, v1, v2, v3, v4⟩ :=
-    close_after_loss n s hg ta tb hc hub tbt hne hlen
+  have hmain : ∃ s1 ta1 tb1 s2, closeLossFrontN n s = .ok s1 ∧ FinRun s s1 ∧
+      (s1.side .A).tcb = some ta1 ∧ (s1.side .B).tcb = some tb1 ∧
+      ta1.state = .FinWait2 ∧ tb1.state = .CloseWait ∧ RestX .A ta1 tb1 ∧ RestX .B tb1 ta1 ∧
+      (s1.side .A).submitted = (s.side .A).submitted ∧ (s1.side .B).submitted = (s.side .B).submitted ∧
+      (s1.side .A).delivered = (s.side .A).delivered ∧
+      closeLossRoundN n s = .ok s2 ∧ releaseTail s1 = .ok s2 ∧ FinRun s1 s2 ∧
+      (s2.side .A).tcb = none ∧ (s2.side .B).tcb = none ∧
+      (s2.side .A).submitted = (s.side .A).submitted ∧ (s2.side .B).submitted = (s.side .B).submitted ∧
+      (s2.side .A).delivered = (s.side .A).delivered ∧ (s2.side .B).delivered = (s1.side .B).delivered := by
+    by_cases hne : ta.outgoing.text = []
+    · exact close_inflight_after_loss n s hg ta tb hc hub tbt hne
+    · exact close_after_loss n s hg ta tb hc hub tbt hne hlen
+  obtain ⟨s1, ta1, tb1, s2, e1, r1, h1a, h1b, sa, sb, ca, cb, u1, u2, u3, e12, e2, r2, na, nb, v1, v2, v3, v4⟩ := hmain
   have hfr : FinRun sys0 s1 := (FinRun.of_plain hrun).trans r1
   have hlt : C01.Lt31 s1 := by
     have := h31.lt31
@@ -398,12 +410,38 @@ def closeLossCheck : Bool :=
     | none => false
   | .error _ => false
 
+/-- the same with nothing unsent at the close: A's only data segment [1, 2, 3] is LOST and still on its retransmission
+    queue; `close()` numbers the FIN at once; `n = 0`: the fair round has two phases -/
+def closeLossCheck0 : Bool :=
+  match Sys.run {} [.open .A 1000 1500, .listen .B 5000 1500] with
+  | .ok (sys0, _) =>
+    match plainRunB sys0 [.emit .A, .deliver .B 0, .emit .B, .deliver .A 1, .emit .A, .deliver .B 2,
+        .write .A [1, 2, 3], .emit .A] with
+    | some s =>
+      (match s.a.tcb, s.b.tcb with
+        | some ta, some tb => calmXB ta && calmXB tb && tb.snd.una == tb.snd.nxt && tb.outgoing.text.isEmpty &&
+            ta.outgoing.text.isEmpty && ta.outgoing.retransmit.length == 1 && s.b.delivered == []
+        | _, _ => false) &&
+      (match closeLossFrontN 0 s with
+        | .ok s1 =>
+          (match s1.a.tcb, s1.b.tcb with
+            | some ta1, some tb1 => ta1.state == .FinWait2 && tb1.state == .CloseWait
+            | _, _ => false) && s1.b.delivered == [1, 2, 3] &&
+          (match releaseTail s1 with
+            | .ok s2 => s2.a.tcb.isNone && s2.b.tcb.isNone && s2.b.delivered == [1, 2, 3] && s2.a.delivered == []
+            | .error _ => false)
+        | .error _ => false)
+    | none => false
+  | .error _ => false
+
+example : closeLossCheck0 = true := by decide
+
 /-- the hypotheses of `c03_close_after_loss_partial` hold in that reachable state (`n = 1`; two LOST data segments on A's
     retransmission queue, B has received nothing), and the schedule, evaluated, ends as promised -/
 example : ∃ sys0 s : Sys, ∃ rs, ∃ ta tb : Tcb,
     Sys.run {} [.open .A 1000 1500, if false then .open .B 5000 1500 else .listen .B 5000 1500] = .ok (sys0, rs) ∧
     PlainRun sys0 s ∧ RoomH s ∧ Calm s ta tb ∧ tb.snd.una = tb.snd.nxt ∧ tb.outgoing.text = [] ∧
-    ta.outgoing.text ≠ [] ∧ ta.outgoing.text.length ≤ 65535 * 1 ∧ ta.outgoing.retransmit.length = 2 ∧
+    ta.outgoing.text.length ≤ 65535 * 1 ∧ ta.outgoing.retransmit.length = 2 ∧
     s.b.delivered = [] := by
   have key : closeLossCheck = true := by decide
   unfold closeLossCheck at key
@@ -418,7 +456,7 @@ example : ∃ sys0 s : Sys, ∃ rs, ∃ ta tb : Tcb,
         simp only [Bool.and_eq_true, List.isEmpty_iff, beq_iff_eq] at k1
         obtain ⟨⟨⟨⟨⟨⟨x1, x2⟩, x3⟩, x4⟩, x5⟩, x6⟩, x7⟩ := k1
         exact ⟨sys0, s, rs, ta, tb, e0, plainRunB_sound _ _ _ e1, ⟨r1, r2⟩,
-          ⟨hta, htb, calmXB_sound _ x1, calmXB_sound _ x2⟩, x3, x4, by rw [x5]; simp, by rw [x5]; decide, x6, x7⟩
+          ⟨hta, htb, calmXB_sound _ x1, calmXB_sound _ x2⟩, x3, x4, by rw [x5]; decide, x6, x7⟩
       · simp at k1
     · simp at key
   · simp at key
